@@ -22,7 +22,8 @@ type raceReport struct {
 	Text     string
 	LibTop   [2]string // first library frame of each of the two accesses
 	LibAny   bool      // some frame of the two access stacks is library code
-	AllSim   bool      // both access stacks lie wholly inside the harness / runtime
+	LibBoth  bool      // each of the two access stacks contains library code
+	AllSim   bool      // at least one access stack has no library frame at all: the harness touched library memory
 	Accesses [2]string
 }
 
@@ -76,7 +77,8 @@ func parseRaceLog(log, modPath, libDir string) []raceReport {
 				}
 			}
 		}
-		rr.AllSim = !rr.LibAny
+		rr.LibBoth = rr.LibTop[0] != "" && rr.LibTop[1] != ""
+		rr.AllSim = !rr.LibBoth
 		out = append(out, rr)
 	}
 	return out
